@@ -26,7 +26,7 @@ pub struct Caps {
 
 impl Default for Caps {
     fn default() -> Self {
-        Caps { max_states: 3_000_000, wall_s: 3000.0, threads: threads() }
+        Caps { max_states: 2_500_000, wall_s: 3000.0, threads: threads() }
     }
 }
 
@@ -88,6 +88,23 @@ impl Explored {
     }
 }
 
+/// exact de-duplication without a second copy of every state: hash -> indices into `states`,
+/// membership decided by comparing the stores themselves
+#[derive(Default)]
+struct Seen(HashMap<u64, Vec<u32>>);
+
+impl Seen {
+    fn contains(&self, s: &Store, states: &[Store]) -> bool {
+        match self.0.get(&h(s)) {
+            Some(v) => v.iter().any(|i| &states[*i as usize] == s),
+            None => false,
+        }
+    }
+    fn insert(&mut self, s: &Store, idx: u32) {
+        self.0.entry(h(s)).or_default().push(idx);
+    }
+}
+
 struct PerState {
     succ: Vec<(u32, Store)>,
     sink: Sink,
@@ -107,7 +124,7 @@ fn h<T: Hash>(t: &T) -> u64 {
     s.finish()
 }
 
-fn run_state(scen: &Scenario, store: &Store, seen: &HashMap<Store, u32>, hooks: &[&dyn StateHook], initial: bool) -> PerState {
+fn run_state(scen: &Scenario, store: &Store, seen: &Seen, states: &[Store], hooks: &[&dyn StateHook], initial: bool) -> PerState {
     let st = StateCtx::new(&scen.cfg, store);
     let mut ps = PerState { succ: vec![], sink: Sink::default(), lasts: vec![], l: 0, p: 0, acc: 0, refu: 0, abo: 0, digest: 0 };
     let sh = h(store);
@@ -147,7 +164,7 @@ fn run_state(scen: &Scenario, store: &Store, seen: &HashMap<Store, u32>, hooks: 
         if is_l {
             ps.l += 1;
             if let Outcome::Accepted(a) = out {
-                if !seen.contains_key(&a.store) {
+                if !seen.contains(&a.store, states) {
                     ps.succ.push((idx, a.store));
                 }
             }
@@ -157,7 +174,7 @@ fn run_state(scen: &Scenario, store: &Store, seen: &HashMap<Store, u32>, hooks: 
             // keep exploring from it so that one defect does not hide its consequences
             if violating {
                 if let Outcome::Accepted(a) = out {
-                    if !seen.contains_key(&a.store) {
+                    if !seen.contains(&a.store, states) {
                         ps.succ.push((scen.l.len() as u32 + idx, a.store));
                     }
                 }
@@ -216,8 +233,8 @@ pub fn explore(scen: &Scenario, hooks: &[&dyn StateHook], caps: &Caps) -> Result
         viols: BTreeMap::new(),
         cov: BTreeMap::new(),
     };
-    let mut seen: HashMap<Store, u32> = HashMap::new();
-    seen.insert(s0, 0);
+    let mut seen = Seen::default();
+    seen.insert(&s0, 0);
     let mut frontier: Vec<usize> = vec![0];
     let mut depth = 0usize;
     let mut cap: Option<String> = None;
@@ -243,7 +260,7 @@ pub fn explore(scen: &Scenario, hooks: &[&dyn StateHook], caps: &Caps) -> Result
                         break;
                     }
                     let si = frontier[i];
-                    let r = run_state(scen, &ex.states[si], &seen, hooks, si == 0);
+                    let r = run_state(scen, &ex.states[si], &seen, &ex.states, hooks, si == 0);
                     *results[i].lock().unwrap() = Some(r);
                 });
             }
@@ -274,9 +291,9 @@ pub fn explore(scen: &Scenario, hooks: &[&dyn StateHook], caps: &Caps) -> Result
                 e.count += 1;
             }
             for (ai, st) in r.succ {
-                if !seen.contains_key(&st) {
+                if !seen.contains(&st, &ex.states) {
                     let id = ex.states.len() as u32;
-                    seen.insert(st.clone(), id);
+                    seen.insert(&st, id);
                     ex.states.push(st);
                     ex.parent.push((si as u32, ai));
                     ex.depth_of.push(depth as u32 + 1);
